@@ -22,6 +22,7 @@ type Val struct {
 	Tuple  []Val      // multi-result
 	Clo    *Closure   // function values with known target
 	Global string     // value loaded from this global (pkgpath.Name), for calls through func vars
+	FnField string    // function value loaded from this struct field ("pkgpath::T.f"), for fieldfn contracts
 	Typ    types.Type // Go type (may be nil for spec-only values)
 	Sort   string     // SMT sort for spec-only values (ghost maps, spec ints)
 }
@@ -271,7 +272,7 @@ func (vc *VC) sortOf(t types.Type) string {
 					vc.emit(fmt.Sprintf("(assert (= (at_%s zero_%s %d) %s))", name, name, i, vc.zeroOfSort(es, u.Elem())))
 				}
 				// extensionality via a constructor function (single-variable axiom)
-				if u.Len() <= 16 {
+				if u.Len() <= 16 && vc.spec != nil && vc.spec.Extensional {
 					var ps, as []string
 					for i := int64(0); i < u.Len(); i++ {
 						ps = append(ps, es)
